@@ -278,6 +278,15 @@ pub fn run(_st: &mut State, op: &str, cmd: &Value) -> Value {
                                     LayerEntryData::PopRange(p) => json!({"k": "pop", "kind": format!("{:?}", p.pop_type),
                                                                           "w": [f32bits(p.inner_radius_ratio)], "index": p.index,
                                                                           "rel": debug_numbers(&format!("{:?}", p.relative_positions))}),
+                                    LayerEntryData::EnvSet(x) => json!({"k": "env", "shape": format!("{:?}", x.shape), "flag": x.is_env_map_shooting_point,
+                                                                        "priority": x.priority,
+                                                                        "w": [w32(x.asset_path_offset), w32(x.bound_instance_id), f32bits(x.effective_range),
+                                                                              w32(x.interpolation_time as u32), f32bits(x.reverb), f32bits(x.filter), w32(x.sound_asset_path_offset)]}),
+                                    LayerEntryData::ExitRange(x) => json!({"k": "exit", "shape": format!("{:?}", x.parent_data.trigger_box_shape),
+                                                                           "priority": x.parent_data.priority, "enabled": x.parent_data.enabled,
+                                                                           "kind": format!("{:?}", x.exit_type), "zone": x.zone_id, "territory": x.territory_type,
+                                                                           "w": [w32(x.index as u32), w32(x.destination_instance_id), w32(x.return_instance_id),
+                                                                                 f32bits(x.player_running_direction)]}),
                                     other => json!({"k": "other", "debug": format!("{:?}", other).chars().take(40).collect::<String>()}),
                                 }}) }).collect::<Vec<Value>>()}) }).collect::<Vec<Value>>()})).collect::<Vec<Value>>()})
                 }))
